@@ -262,7 +262,7 @@ func (c *instrCache) Store(k, v interface{}) {
 type missCache struct{}
 
 func (missCache) Load(interface{}) (interface{}, bool) { return nil, false }
-func (missCache) Store(interface{}, interface{})        {}
+func (missCache) Store(interface{}, interface{})       {}
 
 // amnesiac: an unbounded map that forgets a seeded random subset of its entries on every Store.
 type amnesiacCache struct {
